@@ -282,3 +282,57 @@ PROPS['C07'] = dict(ROUTER_COMMON, **{
                    'exactly-once and single drop under concurrent registration and traffic'),
     'level_note': 'Trusted: Lean kernel, harness; relies on C06 for the event stream; crossbeam-forwarding routes are a callback route whose handler forwards (same dispatch path)',
 })
+
+
+def sched_scen(nq, nt):
+    def f(tier, seed):
+        n = nt if tier == 'thorough' else nq
+        return [{'args': ['sched', '--sys', str(sz), '--seed', str(seed + k), '--n', str(n // 4), '--tier', tier]}
+                for k, sz in enumerate([4608, 4608, 8192, 4608])]
+    return f
+
+
+def search_sched(run):
+    for k in range(4):
+        rc, cases, err = vh(['sched', '--sys', '4608', '--seed', str(700 + k), '--n', '400'], timeout=1200)
+        bad = [c for c in cases if c.get('oracle')]
+        if bad:
+            return {'implementation': bad[0], 'replay_cmd': f'harness/target-default/debug/vh sched --sys 4608 --seed {700 + k} --n 400'}
+    return None
+
+
+IM_THEOREMS = ['IM.delivery_safe', 'IM.fifo_consumption', 'IM.happened_before', 'IM.sinv_step', 'IM.oinv_step',
+               'IM.fs_is_gen', 'IM.ffs_is_gen', 'IM.downsize_is_gen', 'IM.endPos_is_gen', 'IM.single_is_gen', 'IM.want_is_gen']
+PROPS['C02'] = {
+    'modules': ['IpcModel.Props.C02'],
+    'theorems': ['C02.C02_whole', 'C02.C02_once_ordered', 'C02.C02_ok_in_order', 'C02.C02_hb'] + IM_THEOREMS,
+    'scenarios': sched_scen(480, 12000),
+    'search': search_sched,
+    'rule': ('1..3 real sender threads x 1..2 messages each (sizes around the packet boundaries, 1..4 packets) and a real receiver thread, every sendmsg/send/'
+             'recvmsg/recv granted one at a time by a seeded controller (gate in the libc interposer), ENOBUFS / fatal errors injected on half of the cases; the '
+             'executed schedule is replayed in the model; non-trivial = more than one sender or injected faults; distinct = distinct executed schedule'),
+    'explanation': ('safety (whole, never mixed, delivered => Ok send, discarded => failed send), exactly-once FIFO consumption and happened-before order proved for '
+                    'every schedule, any number of threads/messages/sizes; packet-capacity functions bridged to the generated code; real threads replayed step by step'),
+    'assumptions': ['each message uses a fresh dedicated socket whose receiving end travels only in that message (checked on traces in C01/C13)',
+                    'kernel: per-socket FIFO, atomic packets', 'progress/liveness of the receiver is not part of the theorems (safety only)'],
+    'level_text': ('Kernel-checked for all schedules, thread counts, message counts and sizes (sys >= 1000): no message is ever delivered corrupt or mixed, delivered '
+                   '=> complete and its send returned Ok, Ok sends are in the first-packet order which is consumed exactly once in order, and a send that returned '
+                   'before another began precedes it; the model is replayed against real gated threads of the crate'),
+    'level_note': 'Trusted: Lean kernel, harness gate/interposer, kernel FIFO+atomicity; sender/receiver step functions hand-modelled (tied by schedule replay) with arithmetic bridged to generated definitions',
+}
+PROPS['C12'] = {
+    'modules': ['IpcModel.Props.C12'],
+    'theorems': ['C12.C12_intact', 'C12.C12_no_wait_on_dead', 'C12.C12_truncated_not_closed'] + IM_THEOREMS,
+    'scenarios': sched_scen(480, 12000),
+    'search': search_sched,
+    'rule': PROPS['C02']['rule'] + '; for C12 the injected fatal errors (x) abort a send at every packet position with other senders surviving',
+    'explanation': ('crash/fatal-error actions are part of the all-schedules model: intact delivery, atomicity of the interrupted message and "receiver never waits on a dead '
+                    'dedicated socket" are proved; the repaired recv (truncated message discarded, not reported as closure) is a regenerated shape fact; '
+                    'real threads with aborted sends replayed; recv() must never report disconnection while a sender handle exists'),
+    'assumptions': PROPS['C02']['assumptions'] + ['process death is modelled as closing all the sender\'s descriptors between two system calls'],
+    'level_text': ('Kernel-checked for all schedules with sender deaths between any two system calls: completed sends are delivered intact, the interrupted message is '
+                   'delivered whole or discarded, never shortened/mixed, the receiver is never stuck on a dead dedicated socket; real aborted sends replayed in the model '
+                   'and checked for false disconnection'),
+    'level_note': 'Trusted: as C02; crashes of a real separate process are exercised by the crash scenario (process kill before system call k), select()/router observers by the harness only',
+    'claimed': False,
+}
